@@ -107,7 +107,7 @@ impl RustDocument {
             return;
         }
 
-        let abbreviation = make_abbreviated_namespace(url, &self.namespaces);
+        let abbreviation = abbreviation_for_new_namespace(url, &self.namespaces);
 
         let rust_mod_name = create_mod_name_for_namespace(&abbreviation);
         let ns = Rc::new(Namespace {
@@ -158,7 +158,7 @@ impl RustDocument {
                 .find(|ns| ns.namespace == namespace)
                 .cloned()
                 .unwrap_or_else(|| {
-                    let abbreviation = make_abbreviated_namespace(namespace, &self.namespaces);
+                    let abbreviation = abbreviation_for_new_namespace(namespace, &self.namespaces);
                     let rust_mod_name = create_mod_name_for_namespace(&abbreviation);
 
                     Rc::new(Namespace {
@@ -363,6 +363,18 @@ where
         Helpers.write_xml(writer)?;
 
         Ok(())
+    }
+}
+
+/// The abbreviation becomes an XML prefix, and prefixes that begin with "xml" are reserved by the XML
+/// specification: a namespace whose own abbreviation would begin with it gets the fallback "ns",
+/// numbered like any other abbreviation that is already taken.
+fn abbreviation_for_new_namespace(namespace: &str, existing_namespaces: &[Rc<Namespace>]) -> String {
+    let abbreviation = make_abbreviated_namespace(namespace, existing_namespaces);
+    if abbreviation.starts_with("xml") {
+        make_abbreviated_namespace("", existing_namespaces)
+    } else {
+        abbreviation
     }
 }
 
